@@ -237,6 +237,9 @@ for _p in PLANS:
     if _p not in ("C06", "C17"):
         PLANS[_p]["thorough"] = PLANS[_p]["thorough"] + [J("fuzz", "fuzz", seconds=120)]
 
+#   miri-corpus : inputs kept by the fuzz job, re-executed under Miri
+for _p in ("C01", "C13", "C18", "C19", "C20"):
+    PLANS[_p]["thorough"] = PLANS[_p]["thorough"] + [J("miri-corpus", "miri-corpus", inputs=96, shards=16)]
 #   fuzz-asan : the same under AddressSanitizer, for the properties about unsafe containers / frozen maps
 for _p in ("C18", "C19", "C20", "C13"):
     PLANS[_p]["thorough"] = PLANS[_p]["thorough"] + [J("fuzz-asan", "fuzz-asan", seconds=90)]
@@ -484,6 +487,46 @@ def run_fuzz_job(prop, tier, seed, job, jidx):
     return [j]
 
 
+def run_miri_corpus_job(prop, tier, seed, job, jidx):
+    """Inputs that coverage guidance kept (the corpus of the fuzz job that ran earlier in the plan,
+    plus the committed starting corpus) are re-executed under Miri: the interesting executions,
+    found at native speed, are judged by the interpreter for UB / aliasing / leaks."""
+    label = job["label"]
+    corpus = os.path.join(TARGET, "fuzz-corpus", prop)
+    files = sorted(glob.glob(os.path.join(corpus, "*")), key=lambda f: (os.path.getsize(f), f))
+    if not files:
+        raise Inconclusive(f"no fuzz corpus for {prop} (the fuzz job has to run first)")
+    # a deterministic spread over the corpus: smallest inputs first (cheap under the interpreter),
+    # then every n-th of the rest
+    n = job.get("inputs", 96)
+    small = files[: n // 2]
+    rest = files[n // 2 :]
+    step = max(1, len(rest) // max(1, n - len(small)))
+    chosen = small + rest[(seed + jidx) % step :: step][: n - len(small)]
+    sel = os.path.join(TARGET, "fuzz-work", prop + "-miri-inputs")
+    shutil.rmtree(sel, ignore_errors=True)
+    os.makedirs(sel)
+    for f in chosen:
+        shutil.copy(f, os.path.join(sel, os.path.basename(f)))
+    shards = job.get("shards", 16)
+
+    def one(i):
+        part = part_path(prop, label, i)
+        if os.path.exists(part):
+            os.unlink(part)
+        args = [prop, "--tier", tier, "--tape-dir", sel, "--shard", f"{i}/{shards}", "--small", "--part", part, "--label", f"{label}-{i}", "--replay-dir", REPLAY]
+        cmd, env, cwd = miri_command(args)
+        code, logp, dt = run_logged(cmd, f"{prop}-{label}-{i}.log", env=env, cwd=cwd, timeout=3 * 3600)
+        return dict(label=f"{label}-{i}", code=code, log=logp, part=part, wall_s=dt, cmd="cargo miri run -- " + " ".join(args[:6]), sanitizer=True)
+
+    wcmd, wenv, wcwd = miri_command(["NOOP"])
+    wcode, wlog, _ = run_logged(wcmd, f"{prop}-{label}-build.log", env=wenv, cwd=wcwd, timeout=3600)
+    if wcode != 3:
+        raise Inconclusive(f"building rvmon for Miri failed (exit {wcode}), see {wlog}")
+    with ThreadPoolExecutor(max_workers=min(JOBS, shards)) as ex:
+        return list(ex.map(one, range(shards)))
+
+
 def classify_abort(prop, tier, binary, env, inflight, label, code):
     """Returns a list of violation dicts for in-flight cases that kill the process on their own."""
     out = []
@@ -541,6 +584,8 @@ def run_property(prop, tier, seed):
                 continue
             if job["kind"] in ("fuzz", "fuzz-asan"):
                 jobs = run_fuzz_job(prop, tier, seed, job, jidx)
+            elif job["kind"] == "miri-corpus":
+                jobs = run_miri_corpus_job(prop, tier, seed, job, jidx)
             else:
                 jobs = run_rvmon_job(prop, tier, seed, job, jidx)
         except Inconclusive as e:
